@@ -94,7 +94,7 @@ def alphabet(times, steps):
         elif b - a >= 3:
             ss += [('step', int(a + (b - a) // 2 - 1)), ('step', int(a + (b - a) // 2 + 1))]
     ss += [('step', int(steps[0]) - 3), ('step', int(steps[-1]) + 1000)]
-    return A + ts + ss + [('history',)]
+    return A + ts + ss + [('history',), ('history-nothing-valid',)]
 
 
 def expected_index(cur, action, times, steps):
@@ -117,7 +117,7 @@ def expected_index(cur, action, times, steps):
     if k == 'step':
         d = [abs(int(s) - action[1]) for s in steps]
         return d.index(min(d)), None
-    if k == 'history':
+    if k in ('history', 'history-nothing-valid'):
         return cur, None
     raise HarnessError(action)
 
@@ -151,6 +151,9 @@ def do_action(lst, action, hsel):
         lst.step = action[1]
     elif k == 'history':
         lst.history(hsel)
+    elif k == 'history-nothing-valid':
+        # a selection none of whose items exists (unknown row name, unknown table letter): nothing to extract
+        lst.history([('e', 'no such block', 'no such column'), ('q', 0, 'x')])
     return None
 
 
